@@ -24,6 +24,13 @@ func (r ConditionalRule) String() string {
 }
 
 func (r ConditionalRule) Negate() Rule {
+	if r.ElseIsDefined() && !r.Negated {
+		// ¬((if → then) ∧ (¬if → else)) <==> (if ∧ ¬then) ∨ (¬if ∧ ¬else)
+		return NewOr(false, []Rule{
+			NewAnd(false, []Rule{r.IfRule(), r.ThenRule().Negate()}),
+			NewAnd(false, []Rule{r.IfRule().Negate(), r.ElseRule().Negate()}),
+		})
+	}
 	return NewConditional(!r.Negated, r.IfRule(), r.ThenRule())
 }
 
